@@ -225,14 +225,6 @@ Definition t_merge_protocol (s : tstate) : tstate := t_merge (t_merge s).
 Definition t_restart (s : tstate) : tstate := mkTS t_empty (ts_total s) t_empty.
 Definition t_init : tstate := mkTS t_empty t_empty t_empty.
 
-(* a variant of the merge that keeps each key's merged delta (the repair of the first loop; used by
-   Ternary.v to show that the per-key lifting is sound for it) *)
-Definition t_merge_keys_keep (newm deltam totalm : list (Z * eqc)) : list (Z * eqc) * list (Z * eqc) * list (Z * eqc) :=
-  fold_left (fun '(nm, dm, tm) kd =>
-               let k := fst kd in
-               let b := b_merge (mkB (get_or_default k nm) (snd kd) (get_or_default k tm)) in
-               (zrem k nm, zset k (b_delta b) dm, zset k (b_total b) tm)) deltam (newm, [], totalm).
-
 (* views *)
 Definition t_contains (t : eq2) (k x y : Z) : bool :=
   match zget k (t_map t) with Some c => c_added_contains c x y | None => false end.
